@@ -614,6 +614,31 @@ impl Interp {
                     _ => return unsup("selector on unsupported value (method value?)"),
                 }
             }
+            ExprKind::SliceExpr(arr, lo, hi, max) => {
+                let av = self.eval(arr)?;
+                let mut bound = |me: &mut Self, b: &Option<Box<Expr>>| -> R<Option<i128>> {
+                    match b {
+                        None => Ok(None),
+                        Some(x) => match me.eval(x)? {
+                            V::Int(_, i) => Ok(Some(i)),
+                            _ => unsup("non-int slice bound"),
+                        },
+                    }
+                };
+                let (l, h, m) = (bound(self, lo)?, bound(self, hi)?, bound(self, max)?);
+                let V::Slice(s) = av else { return unsup("slice expression on a non-slice") };
+                let (len, cap) = s.as_ref().map(|s| (s.len as i128, s.cap as i128)).unwrap_or((0, 0));
+                let l = l.unwrap_or(0);
+                let h = h.unwrap_or(len);
+                let m = m.unwrap_or(cap);
+                if !(0 <= l && l <= h && h <= m && m <= cap) {
+                    return Err(Stop::Panic(PanicKind::Index));
+                }
+                match s {
+                    None => V::Slice(None),
+                    Some(s) => V::Slice(Some(SliceV { backing: s.backing.clone(), off: s.off + l as usize, len: (h - l) as usize, cap: (m - l) as usize })),
+                }
+            }
             ExprKind::Index(arr, idx) => {
                 let av = self.eval(arr)?;
                 let V::Int(_, i) = self.eval(idx)? else { return unsup("non-int index") };
